@@ -35,7 +35,9 @@ import (
 	"time"
 
 	"tunnox-core/internal/cloud/models"
+	"tunnox-core/internal/cloud/repos"
 	"tunnox-core/internal/cloud/services"
+	"tunnox-core/internal/constants"
 	coretypes "tunnox-core/internal/core/types"
 	"tunnox-core/internal/packet"
 	"tunnox-core/verifharness/fw"
@@ -102,6 +104,7 @@ type stepT struct {
 	Ty     string `json:"ty"`
 	Pt     string `json:"pt"`
 	Claims string `json:"claims"`
+	Bf     string `json:"bf"`
 	Obj    string `json:"obj"`
 	Hc     string `json:"hc"`
 	Exp    *struct {
@@ -112,11 +115,22 @@ type stepT struct {
 
 type behT struct {
 	Reg    string                     `json:"reg"`
+	Wv     string                     `json:"wv"`
 	Steps  []stepT                    `json:"steps"`
 	Policy map[string]json.RawMessage `json:"policy"`
 }
 
 var clientNames = []string{"A", "B", "C"}
+
+// thirdOf: a client that is neither the actor nor its victim.
+func thirdOf(a string) string {
+	for _, n := range clientNames {
+		if n != a && n != victimOf(a) {
+			return n
+		}
+	}
+	return "C"
+}
 
 func victimOf(a string) string {
 	if a == "B" {
@@ -129,6 +143,7 @@ func victimOf(a string) string {
 // one server with its world
 
 type obj struct {
+	Tgt     string // mappings: the target client
 	Kind    string
 	Ps      []string // parties (client names)
 	Own     string   // listen client (mapping) / owner (code, domain, client config)
@@ -151,6 +166,7 @@ type run struct {
 	tag    string
 	ncmd   int
 	m1ID   string
+	k0Code string
 	k1Code string
 	d1ID   string
 }
@@ -171,7 +187,7 @@ type inconclusive string
 
 var tNewRun, tCmd, tSnap, nRuns atomic.Int64
 
-func newRun(reg string) (r *run, err error) {
+func newRun(reg, wv string) (r *run, err error) {
 	t0 := time.Now()
 	defer func() { tNewRun.Add(int64(time.Since(t0))); nRuns.Add(1) }()
 	s, err := srvkit.NewServer(srvkit.Options{HeartbeatTimeout: time.Hour, CleanupInterval: time.Hour})
@@ -227,9 +243,12 @@ func newRun(reg string) (r *run, err error) {
 	if err != nil {
 		return nil, fmt.Errorf("activate k2: %w", err)
 	}
-	r.m1ID, r.k1Code, r.d1ID = m1.ID, k1.Code, d1.ID
+	r.m1ID, r.k0Code, r.k1Code, r.d1ID = m1.ID, k0.Code, k1.Code, d1.ID
 	r.objn[m1.ID], r.objn[k0.ID], r.objn[k0.Code], r.objn[k1.ID], r.objn[k1.Code], r.objn[d1.ID], r.objn[d1.FullDomain] = "m1", "k0", "k0", "k1", "k1", "d1", "d1"
 	r.objn[m3.ID], r.objn[k2.ID], r.objn[k2.Code] = "m3", "k2", "k2"
+	if err := r.applyWorldVariant(wv, m1.ID, k1.ID, k1.Code, d1.ID); err != nil {
+		return nil, fmt.Errorf("world variant %s: %w", wv, err)
+	}
 	// the clients come online on their control connections; wait for each configuration push
 	for i, n := range clientNames {
 		c, err := s.NewConn(fmt.Sprintf("10.11.1.%d", i+1))
@@ -250,6 +269,66 @@ func newRun(reg string) (r *run, err error) {
 		r.cm.Drain(c)
 	}
 	return r, nil
+}
+
+// applyWorldVariant puts the named objects into the state the behaviour starts from, through the real
+// services / repositories (spec/Commands.tla, constant WVs):
+//
+//	expired   m1, k1, d1 are past their expiry but still stored (nothing has swept them yet)
+//	revoked   m1 revoked (ConnectionCodeService.RevokeMapping), k1 revoked (RevokeConnectionCode)
+//	inactive  m1 status inactive (UpdatePortMappingStatus), d1 status inactive
+func (r *run) applyWorldVariant(wv, m1ID, k1ID, k1Code, d1ID string) error {
+	ctx := context.Background()
+	switch wv {
+	case "", "base":
+		return nil
+	case "expired":
+		past := time.Now().Add(-time.Hour)
+		m, err := r.s.Cloud.GetPortMapping(m1ID)
+		if err != nil {
+			return err
+		}
+		m.ExpiresAt = &past
+		if err := r.s.Cloud.UpdatePortMapping(m); err != nil {
+			return err
+		}
+		// a connection code lives in the store under a TTL equal to its activation window, so "expired but
+		// still stored" is the instant before the TTL fires: written directly, with the expiry in the past
+		k, err := r.cm.CodeRepo.GetByID(k1ID)
+		if err != nil {
+			return err
+		}
+		k.ActivationExpiresAt = past
+		data := string(fw.MustJSON(k))
+		if err := r.s.Storage.Set(constants.KeyPrefixRuntimeConnectionCodeByCode+k1Code, data, time.Hour); err != nil {
+			return err
+		}
+		if err := r.s.Storage.Set(constants.KeyPrefixRuntimeConnectionCodeByID+k1ID, data, time.Hour); err != nil {
+			return err
+		}
+		d, err := r.cm.Domains.GetMapping(ctx, d1ID)
+		if err != nil {
+			return err
+		}
+		d.ExpiresAt = past.Unix()
+		return r.cm.Domains.UpdateMapping(ctx, d)
+	case "revoked":
+		if err := r.cm.ConnCodes.RevokeMapping(m1ID, r.ids["B"], "verif"); err != nil {
+			return err
+		}
+		return r.cm.ConnCodes.RevokeConnectionCode(k1Code, "verif")
+	case "inactive":
+		if err := r.s.Cloud.UpdatePortMappingStatus(m1ID, models.MappingStatusInactive); err != nil {
+			return err
+		}
+		d, err := r.cm.Domains.GetMapping(ctx, d1ID)
+		if err != nil {
+			return err
+		}
+		d.Status = repos.HTTPDomainMappingStatusInactive
+		return r.cm.Domains.UpdateMapping(ctx, d)
+	}
+	return fmt.Errorf("unknown world variant")
 }
 
 // login runs the client's two-phase control handshake with the right key and waits for the
@@ -340,8 +419,8 @@ func (r *run) snapshot() map[string]*obj {
 			continue
 		}
 		l, t := r.clientName(m.ListenClientID), r.clientName(m.TargetClientID)
-		put(m.ID, &obj{Kind: "mapping", Ps: uniq(l, t), Own: l,
-			Attrs:   fmt.Sprintf("l=%s t=%s st=%s rev=%v la=%s ta=%s proto=%s", l, t, m.Status, m.IsRevoked, m.ListenAddress, m.TargetAddress, m.Protocol),
+		put(m.ID, &obj{Kind: "mapping", Tgt: t, Ps: uniq(l, t), Own: l,
+			Attrs:   fmt.Sprintf("l=%s t=%s st=%s rev=%v exp=%v la=%s ta=%s proto=%s", l, t, m.Status, m.IsRevoked, m.IsExpired(), m.ListenAddress, m.TargetAddress, m.Protocol),
 			Traffic: fmt.Sprintf("%d/%d/%d", m.TrafficStats.BytesSent, m.TrafficStats.BytesReceived, m.TrafficStats.Connections),
 			keys:    []string{m.ID}}, m.CreatedAt.Format(time.RFC3339Nano)+m.ID)
 	}
@@ -366,7 +445,7 @@ func (r *run) snapshot() map[string]*obj {
 				mp = "set"
 			}
 			put(c.ID, &obj{Kind: "code", Ps: []string{o}, Own: o,
-				Attrs: fmt.Sprintf("o=%s act=%v by=%s rev=%v map=%s ta=%s", o, c.IsActivated, by, c.IsRevoked, mp, c.TargetAddress),
+				Attrs: fmt.Sprintf("o=%s act=%v by=%s rev=%v exp=%v map=%s ta=%s", o, c.IsActivated, by, c.IsRevoked, c.IsExpired(), mp, c.TargetAddress),
 				keys:  []string{c.ID, c.Code}}, c.CreatedAt.Format(time.RFC3339Nano)+c.ID)
 		}
 	}
@@ -375,7 +454,7 @@ func (r *run) snapshot() map[string]*obj {
 		for _, d := range ds {
 			o := r.clientName(d.ClientID)
 			put(d.ID, &obj{Kind: "domain", Ps: []string{o}, Own: o,
-				Attrs: fmt.Sprintf("o=%s dom=%s st=%s tgt=%s:%d", o, d.FullDomain, d.Status, d.TargetHost, d.TargetPort),
+				Attrs: fmt.Sprintf("o=%s dom=%s st=%s exp=%v tgt=%s:%d", o, d.FullDomain, d.Status, d.IsExpired(), d.TargetHost, d.TargetPort),
 				keys:  []string{d.ID, d.FullDomain}}, fmt.Sprintf("%020d%s", d.CreatedAt, d.ID))
 		}
 	}
@@ -454,7 +533,7 @@ func diffOf(pre, post map[string]*obj) []map[string]any {
 
 // ---- sending one command --------------------------------------------------------------------
 
-func (r *run) body(st stepT, actor string) string {
+func (r *run) body(st stepT, actor, bf string) string {
 	mappingID, domainID, codeStr := "pmap_absent00", "hdm_999999", "zzz-zzz-zzz"
 	switch st.Obj {
 	case "m1":
@@ -471,12 +550,45 @@ func (r *run) body(st stepT, actor string) string {
 		}
 	case "k1":
 		codeStr = r.k1Code
+	case "k0":
+		codeStr = r.k0Code
 	}
 	target := int64(-1)
 	if st.Obj == "explicit" {
 		target = r.ids[victimOf(actor)]
 	}
-	j := func(v any) string { return string(fw.MustJSON(v)) }
+	// client-id fields claimed inside the body: "own" = the caller, "victim" = another party, "third" = neither.
+	// Every request gets the generic ones; target_client_id is added where it is not the command's argument
+	// (for the SOCKS5 tunnel request it is a field the client copies from the pushed mapping configuration).
+	var claimed int64
+	switch bf {
+	case "own":
+		claimed = 900000001
+		if actor != "none" {
+			claimed = r.ids[actor]
+		}
+	case "victim":
+		claimed = r.ids[victimOf(actor)]
+	case "third":
+		claimed = r.ids[thirdOf(actor)]
+	}
+	j := func(v any) string {
+		b := fw.MustJSON(v)
+		if claimed == 0 {
+			return string(b)
+		}
+		var m map[string]any
+		if json.Unmarshal(b, &m) != nil {
+			return string(b)
+		}
+		for _, f := range []string{"client_id", "listen_client_id", "sender_client_id", "source_client_id", "owner_client_id", "target_client_id"} {
+			if _, argument := m[f]; !argument {
+				m[f] = claimed
+			}
+		}
+		m["user_id"] = strconv.FormatInt(claimed, 10)
+		return string(fw.MustJSON(m))
+	}
 	switch strings.TrimSuffix(st.Ty, ":resp") {
 	case "ConnectionCodeGenerate":
 		return j(map[string]any{"target_address": "tcp://127.0.0.1:2222", "activation_ttl": 600, "mapping_ttl": 3600})
@@ -515,7 +627,7 @@ func (r *run) body(st stepT, actor string) string {
 	case "RpcInvoke":
 		return j(map[string]any{"method": "verif"})
 	}
-	return "{}"
+	return j(map[string]any{})
 }
 
 // liveNew lists the real ids of objects of a kind that were not created at set-up (m2 / d2 of the model).
@@ -556,7 +668,7 @@ func (r *run) actorIdentity() string {
 }
 
 // cmd sends one command on c1 and observes everything the statement talks about.
-func (r *run) cmd(st stepT, claims string) (*cmdResult, string) {
+func (r *run) cmd(st stepT, claims, bf string) (*cmdResult, string) {
 	t0 := time.Now()
 	defer func() { tCmd.Add(int64(time.Since(t0))) }()
 	ct, ok := typeByName(st.Ty)
@@ -569,7 +681,7 @@ func (r *run) cmd(st stepT, claims string) (*cmdResult, string) {
 	actor := r.actorIdentity()
 	r.ncmd++
 	r.tag = fmt.Sprintf("%d", cmdSeq.Add(1))
-	cp := &packet.CommandPacket{CommandType: ct, CommandId: "c11-" + r.tag, CommandBody: r.body(st, actor)}
+	cp := &packet.CommandPacket{CommandType: ct, CommandId: "c11-" + r.tag, CommandBody: r.body(st, actor, bf)}
 	switch claims {
 	case "own":
 		id := int64(900000001) // unauthenticated: an id no server issues
@@ -586,9 +698,12 @@ func (r *run) cmd(st stepT, claims string) (*cmdResult, string) {
 		pt = packet.CommandResp
 	}
 	pre := r.snapshot()
-	objp, objo := []string{}, "none"
+	objp, objo, objt := []string{}, "none", "none"
 	if o := pre[r.modelObj(st.Obj, pre)]; o != nil {
 		objp, objo = o.Ps, o.Own
+		if o.Tgt != "" {
+			objt = o.Tgt
+		}
 	}
 	for _, c := range r.v {
 		r.cm.Drain(c)
@@ -630,7 +745,8 @@ func (r *run) cmd(st stepT, claims string) (*cmdResult, string) {
 					var b struct {
 						Sender *int64 `json:"sender_client_id"`
 					}
-					if json.Unmarshal([]byte(p.CommandPacket.CommandBody), &b) == nil && b.Sender != nil {
+					// the sender the SERVER states in a notification (a relayed request body is the caller's own payload)
+					if p.CommandPacket.CommandType == packet.NotifyClient && json.Unmarshal([]byte(p.CommandPacket.CommandBody), &b) == nil && b.Sender != nil {
 						d["snd"] = r.clientName(*b.Sender)
 					}
 					// the fake client answers forwarded DNS requests so that the duplex wait ends at once
@@ -728,8 +844,8 @@ wait:
 	diff := diffOf(pre, post)
 	sort.Slice(deliv, func(i, j int) bool { return fmt.Sprint(deliv[i]) < fmt.Sprint(deliv[j]) })
 	sum := summary(out, ret, diff, deliv)
-	ev := fw.Event{"ev": "Cmd", "c": "c1", "ty": st.Ty, "pt": st.Pt, "claims": claims, "obj": st.Obj, "hc": st.Hc, "actor": actor,
-		"out": out, "objp": objp, "objo": objo, "ret": ret, "diff": diff, "deliv": deliv, "sum": sum}
+	ev := fw.Event{"ev": "Cmd", "c": "c1", "ty": st.Ty, "pt": st.Pt, "claims": claims, "bf": bf, "obj": st.Obj, "hc": st.Hc, "actor": actor,
+		"out": out, "objp": objp, "objo": objo, "objt": objt, "ret": ret, "diff": diff, "deliv": deliv, "sum": sum}
 	if res.herr != nil {
 		e := res.herr.Error()
 		if len(e) > 120 {
@@ -823,8 +939,8 @@ func (r *run) hs(st stepT) (fw.Event, string) {
 // ---------------------------------------------------------------------------------------------
 // replay of one behaviour (once, or twice for the claims twin)
 
-func replay(beh *behT, claimsOverride string, logAll bool) (evs []fw.Event, sums []string, bind []bool, note string, err error) {
-	r, err := newRun(beh.Reg)
+func replay(beh *behT, twin bool, logAll bool) (evs []fw.Event, sums []string, bind []bool, note string, err error) {
+	r, err := newRun(beh.Reg, beh.Wv)
 	if err != nil {
 		return nil, nil, nil, "", err
 	}
@@ -843,15 +959,18 @@ func replay(beh *behT, claimsOverride string, logAll bool) (evs []fw.Event, sums
 			}
 			evs = append(evs, ev)
 		case "Cmd":
-			claims := st.Claims
-			if claimsOverride != "" {
-				claims = claimsOverride
+			claims, bf := st.Claims, st.Bf
+			if bf == "" {
+				bf = "absent"
 			}
-			res, why := r.cmd(st, claims)
+			if twin { // the twin run: same steps, no identity fields anywhere in the packets
+				claims, bf = "absent", "absent"
+			}
+			res, why := r.cmd(st, claims, bf)
 			if res == nil {
 				return evs, sums, bind, fmt.Sprintf("stopped before step %d: %s", i+1, why), nil
 			}
-			res.ev["reg"] = beh.Reg
+			res.ev["reg"], res.ev["wv"] = beh.Reg, beh.Wv
 			evs = append(evs, res.ev)
 			sums = append(sums, res.sum)
 			bind = append(bind, binding(st, res.ev))
@@ -907,6 +1026,9 @@ func binding(st stepT, ev fw.Event) bool {
 			got["deliv:"+x["to"].(string)] = true
 		}
 	}
+	if st.Ty == "ConnectionCodeList" {
+		delete(got, "del:k1") // listing sweeps an expired, never activated code of the caller - asynchronously
+	}
 	// what a command creates is also named in its response
 	for k := range got {
 		if strings.HasPrefix(k, "ret:") && (got["add:"+k[4:]] || want["add:"+k[4:]]) {
@@ -948,7 +1070,7 @@ func drive(env *fw.Env, b fw.Behaviour) (t *fw.Trace) {
 	if len(beh.Steps) == 0 {
 		return &fw.Trace{Status: fw.DriverError, Note: "empty behaviour"}
 	}
-	evs, sums, bind, note, err := replay(&beh, "", true)
+	evs, sums, bind, note, err := replay(&beh, false, true)
 	if err != nil {
 		return &fw.Trace{Status: fw.DriverError, Note: err.Error()}
 	}
@@ -977,19 +1099,19 @@ func drive(env *fw.Env, b fw.Behaviour) (t *fw.Trace) {
 	// twin run without identity fields, when any command carried some
 	twin := false
 	for _, st := range beh.Steps {
-		if st.Op == "Cmd" && st.Claims != "absent" {
+		if st.Op == "Cmd" && (st.Claims != "absent" || (st.Bf != "" && st.Bf != "absent")) {
 			twin = true
 		}
 	}
 	if twin {
-		_, ref, _, _, err := replay(&beh, "absent", false)
+		_, ref, _, _, err := replay(&beh, true, false)
 		if err != nil {
 			return &fw.Trace{Status: fw.DriverError, Note: "twin: " + err.Error()}
 		}
 		k := 0
 		for _, ev := range evs {
 			if ev["ev"] == "Cmd" {
-				if k < len(ref) && ev["claims"] != "absent" {
+				if k < len(ref) && (ev["claims"] != "absent" || ev["bf"] != "absent") {
 					ev["ref"] = ref[k]
 				}
 				k++
@@ -1133,6 +1255,15 @@ func driveTable(beh *behT) *fw.Trace {
 // ---------------------------------------------------------------------------------------------
 // self-test: corrupted copies of accepted traces; every corruption contradicts the statement
 
+func contains(xs []string, x string) bool {
+	for _, y := range xs {
+		if y == x {
+			return true
+		}
+	}
+	return false
+}
+
 func clone(t *fw.Trace, id int) *fw.Trace {
 	var evs []fw.Event
 	if err := json.Unmarshal(fw.MustJSON(t.Events), &evs); err != nil {
@@ -1146,7 +1277,7 @@ func selfTest(env *fw.Env, acc []*fw.Trace) []*fw.Trace {
 	id := 9000000
 	count := map[string]int{}
 	add := func(kind string, t *fw.Trace, f func(evs []fw.Event) []fw.Event) {
-		if count[kind] >= 4 {
+		if count[kind] >= 3 {
 			return
 		}
 		count[kind]++
@@ -1224,6 +1355,23 @@ func selfTest(env *fw.Env, acc []*fw.Trace) []*fw.Trace {
 					return evs
 				})
 			}
+			if actor != "none" && e["out"] == "fail" && e["ty"] == "MappingGet" && e["obj"] == "m1" && !contains(strs(e["objp"]), actor) {
+				// 9. a stranger's refused inspection nevertheless removed the mapping from the store
+				add("refused-but-deleted", t, func(evs []fw.Event) []fw.Event {
+					evs[i]["diff"] = []any{map[string]any{"op": "del", "kind": "mapping", "o": "m1", "ps": evs[i]["objp"], "own": evs[i]["objo"]}}
+					return evs
+				})
+			}
+			if actor != "none" && e["ty"] == "SOCKS5TunnelRequestCmd" && len(fw.MustJSON(e["deliv"])) > 2 && e["bf"] == "third" {
+				// 10. the tunnel request went to the client named in the body instead of the mapping's target
+				add("redirected", t, func(evs []fw.Event) []fw.Event {
+					for _, d := range evs[i]["deliv"].([]any) {
+						d.(map[string]any)["to"] = thirdOf(actor)
+					}
+					evs[i]["ref"] = evs[i]["sum"] // even if the twin run had agreed
+					return evs
+				})
+			}
 			if e["claims"] != "absent" && e["ref"] != nil {
 				// 7. the identity fields changed the outcome
 				add("claims-matter", t, func(evs []fw.Event) []fw.Event {
@@ -1236,10 +1384,16 @@ func selfTest(env *fw.Env, acc []*fw.Trace) []*fw.Trace {
 				add("not-listen", t, func(evs []fw.Event) []fw.Event { evs[i]["objo"] = "C"; return evs })
 			}
 		}
-		if len(out) >= 30 {
+		if len(out) >= 40 {
 			break
 		}
 	}
+	var kinds []string
+	for k, n := range count {
+		kinds = append(kinds, fmt.Sprintf("%s=%d", k, n))
+	}
+	sort.Strings(kinds)
+	fmt.Printf("[selftest] corruptions: %s\n", strings.Join(kinds, " "))
 	return out
 }
 
@@ -1259,7 +1413,7 @@ func genFixes() string {
 func job(name, sets, fixes string, cmds int, resp, emit bool) fw.TLCJob {
 	b := map[bool]string{true: "TRUE", false: "FALSE"}
 	return fw.TLCJob{Name: name, Module: "Commands", Cfg: "Commands_mc.cfg", Workers: 4,
-		Consts: map[string]string{"SETS": sets, "FIXES": fixes, "CMDS": strconv.Itoa(cmds), "RESP": b[resp], "EMIT": b[emit]}}
+		Consts: map[string]string{"WVS": `{"base", "expired", "revoked", "inactive"}`, "SETS": sets, "FIXES": fixes, "CMDS": strconv.Itoa(cmds), "RESP": b[resp], "EMIT": b[emit]}}
 }
 
 const (
